@@ -121,14 +121,14 @@ def run_compose_models(ctx, evals, nc, np_, depth=1, maxtoks=40, simulate=0, inv
                 r["distinct"], r["beh"], r["wall_s"], (" VIOLATED " + str(r["violated"])) if r["violated"] else ""))
     return res
 
-MACHINE_INV = ["Refines", "TicksAgree", "DepthBound", "Linear", "RetDiscipline"]
+MACHINE_INV = ["Refines", "TicksAgree", "DepthBound", "Linear", "RetDiscipline"]          # plus the liveness property Terminates (WF)
 
 def run_machine_models(ctx, evals, mn, par=2, workers=6):
     """TLC MCParserMachine: the parser as an explicit stack machine (one frame per active Rust procedure), tokens supplied on demand;
     it refines ParseFn (verdict, tree, error position), its tick counter is ParseSteps' prediction, its recursion depth is bounded."""
     res = {}
     def one(e):
-        cfg = "CONSTANTS E = \"%s\"\nMK <- MCKinds\nMN = %d\nINIT Init\nNEXT MNext\nCHECK_DEADLOCK FALSE\nINVARIANT %s\n" % (e, mn, " ".join(MACHINE_INV))
+        cfg = "CONSTANTS E = \"%s\"\nMK <- MCKinds\nMN = %d\nSPECIFICATION MFair\nCHECK_DEADLOCK FALSE\nINVARIANT %s\nPROPERTY Terminates\n" % (e, mn, " ".join(MACHINE_INV))
         r = vlib.tlc("MCParserMachine", cfg, "%s_machine_%s" % (ctx.prop, e), workers=workers, timeout=3 * 3600)
         r.update({"e": e, "N": mn, "beh": 0, "beh_path": None, "samples": [], "machine": True})
         return e, r
